@@ -806,6 +806,11 @@ func (x *Exec) defineSpec(sf *SpecFunc) string {
 				}
 			}
 			if isSumShape(sf) {
+				for _, pp := range x.W.pendingSum {
+					if pp[0].Sort == so {
+						x.emitSumUpdate(name, pp[0], pp[1], pp[2])
+					}
+				}
 				for _, pp := range x.W.pendingPerm {
 					if pp[0].Sort == so {
 						x.W.Facts = append(x.W.Facts, fmt.Sprintf("(= (%s %s %s) (%s %s %s))", name, pp[0].S, pp[2].S, name, pp[1].S, pp[2].S))
@@ -1203,4 +1208,45 @@ func usesWholeElement(sf *SpecFunc) bool {
 	}
 	walk(sf.Body, false)
 	return whole
+}
+
+// sumUpdateFacts: newSeq is oldSeq with element i replaced.  For a sum-shaped fold f (f(s,n) = f(s,n-1) + g(s[n-1])) every
+// longer prefix changes by exactly the change of the i-th summand (induction on n; the summands are f(.,i+1)-f(.,i)).
+func (x *Exec) sumUpdateFacts(newSeq, oldSeq, i Term) {
+	if x.termMode || x.noFacts > 0 || x.unroll > 0 {
+		return
+	}
+	x.W.pendingSum = append(x.W.pendingSum, [3]Term{newSeq, oldSeq, i})
+	for _, sf := range x.P.Contracts.Specs {
+		if !isSumShape(sf) || !x.W.defSeen["spec_"+sf.Name] {
+			continue
+		}
+		so := x.resolveTypeNameSafe(sf.Params[0].Type, sf.Pkg)
+		if so != newSeq.Sort {
+			continue
+		}
+		x.emitSumUpdate("spec_"+sf.Name, newSeq, oldSeq, i)
+	}
+}
+
+func (x *Exec) emitSumUpdate(name string, newSeq, oldSeq, i Term) {
+	x.W.nfresh++
+	q := fmt.Sprintf("n!q%d", x.W.nfresh)
+	ip1 := Arith("+", i, IntLit(1))
+	delta := fmt.Sprintf("(- (- (%s %s %s) (%s %s %s)) (- (%s %s %s) (%s %s %s)))", name, newSeq.S, ip1.S, name, newSeq.S, i.S, name, oldSeq.S, ip1.S, name, oldSeq.S, i.S)
+	x.W.Facts = append(x.W.Facts, fmt.Sprintf("(forall ((%s Int)) (! (=> (> %s %s) (= (%s %s %s) (+ (%s %s %s) %s))) :pattern ((%s %s %s))))",
+		q, q, i.S, name, newSeq.S, q, name, oldSeq.S, q, delta, name, newSeq.S, q))
+}
+
+func (x *Exec) resolveTypeNameSafe(t, pkg string) (so Sort) {
+	defer func() {
+		if rec := recover(); rec != nil {
+			if _, ok := rec.(Unsupported); ok {
+				so = ""
+				return
+			}
+			panic(rec)
+		}
+	}()
+	return x.resolveTypeName(t, pkg).sort
 }
